@@ -55,9 +55,10 @@ const (
 // excludes everything beneath the top-level directory `name`; a `*.ext` line excludes
 // files whose name ends in `.ext` at any depth. Everything inside .goit/ is metadata.
 type IgnoreRules struct {
-	dirs  []string
-	exts  []string
-	other []string
+	nested []string // directory entries given as a path of several plain components
+	dirs   []string
+	exts   []string
+	other  []string
 }
 
 func ParseIgnore(data []byte) *IgnoreRules {
@@ -70,6 +71,8 @@ func ParseIgnore(data []byte) *IgnoreRules {
 		switch {
 		case strings.HasSuffix(l, "/") && !strings.ContainsAny(strings.TrimSuffix(l, "/"), "/*?[\\"):
 			r.dirs = append(r.dirs, strings.TrimSuffix(l, "/"))
+		case strings.HasSuffix(l, "/") && !strings.HasPrefix(l, "/") && !strings.ContainsAny(l, "*?[\\") && !strings.Contains(l, "//"):
+			r.nested = append(r.nested, strings.TrimSuffix(l, "/"))
 		case strings.HasPrefix(l, "*.") && !strings.ContainsAny(l[2:], "/*?[\\"):
 			r.exts = append(r.exts, l[1:])
 		default:
@@ -99,6 +102,14 @@ func (r *IgnoreRules) Ignored(p string) tri {
 			if i > 0 && c == d {
 				res = unknown
 			}
+		}
+	}
+	for _, d := range r.nested {
+		if strings.HasPrefix(p, d+"/") {
+			return yes
+		}
+		if strings.Contains(p, "/"+d+"/") {
+			res = unknown
 		}
 	}
 	for _, e := range r.exts {
